@@ -37,10 +37,19 @@ var c06Msg = mkSpace("message", []fieldDim{
 	{"Special", []string{"", "sigalg-without-signature", "empty-samlrequest", "no-samlrequest"}},
 	{"Host", []string{"", "other.example:8443"}},
 	{"Optional", []string{"", "all"}},
+	{"Lex", []string{"", "cdata", "charref", "attr-charref", "comments", "bom", "tagws", "all"}},
+	{"Flate", []string{"", "stored", "flushed", "chunks"}},
+	{"B64Wrap", []string{"", "64crlf"}},
 	{"KeyFault", []string{"", world.FaultError, world.FaultNilRecord, world.FaultNoCert, world.FaultNoKey}},
 })
 
 func c06Valid(p ssoP) bool {
+	if p.Flate != "" && (p.Transport != "" || p.Deflate != "" || p.Special != "") {
+		return false
+	}
+	if p.B64Wrap != "" && p.Transport != "post" {
+		return false
+	}
 	if p.Deflate != "" && (p.Transport != "" || p.Special != "" || p.B64 != "") {
 		return false
 	}
